@@ -546,7 +546,7 @@ func opNamePredicate(w *World, fnName string) (map[string]bool, string) {
 	kinds := kindGuardPresent(w, fn)
 	EachInstr(fn, func(in ssa.Instruction) {
 		if c, ok := in.(*ssa.Call); ok {
-			if h := c.Call.StaticCallee(); h != nil && w.funcSet[h] && h.Name() != "getNodeType" {
+			if h := c.Call.StaticCallee(); h != nil && w.funcSet[h] && nm(h) != "getNodeType" {
 				for kk, vv := range kindGuardPresent(w, h) {
 					if vv {
 						kinds[kk] = true
@@ -646,7 +646,7 @@ func rulePairBool(w *World, r *Report) {
 	if fn := w.MustFn(r, rule, "isBoolOpNode"); fn != nil {
 		tc := &termCtx{leaf: func(v ssa.Value) string {
 			if c, callee := staticCallee(v); c != nil && callee != nil && len(c.Call.Args) == 1 && c.Call.Args[0] == ssa.Value(fn.Params[0]) {
-				return callee.Name() + "(n)"
+				return nm(callee) + "(n)"
 			}
 			return ""
 		}}
@@ -669,7 +669,7 @@ func rulePairBool(w *World, r *Report) {
 					found := false
 					for _, f := range factsAt(ret.Block()) {
 						if c, callee := staticCallee(f.Cond); c != nil && callee != nil && f.Truth && len(c.Call.Args) == 1 && c.Call.Args[0] == ssa.Value(fn.Params[0]) {
-							used[callee.Name()] = true
+							used[nm(callee)] = true
 							found = true
 						}
 					}
